@@ -128,7 +128,13 @@ pub fn c01_worker(ctx: &mut Ctx) {
 /// segments, parts touching a vertical edge of another part, deep nesting
 pub fn c02_constructed(k: u64) -> Case {
     let sq = |x0: f64, y0: f64, x1: f64, y1: f64| -> Poly { vec![rect_ring(x0, y0, x1, y1)] };
-    let (a, b, desc): (MP, MP, &str) = match k % 6 {
+    let holed = |ext: Ring, mut hole: Ring| -> Poly {
+        if ring_area2(&hole) > 0.0 {
+            hole.reverse();
+        }
+        vec![ext, hole]
+    };
+    let (a, b, desc): (MP, MP, &str) = match k % 10 {
         0 => (vec![sq(0., 0., 1., 1.), sq(1., 3., 2., 4.)], vec![sq(0., 0., 2., 1.), sq(0., 3., 1., 4.)], "F1 witness: rectangles above a shared top edge"),
         1 => {
             // square with a triangular hole touching its left side (F2 witness), against a box overlapping it
@@ -150,10 +156,32 @@ pub fn c02_constructed(k: u64) -> Case {
             vec![sq(0., 1., 4., 2.), sq(0., 3., 4., 4.), sq(1., 5., 2., 6.)],
             "stack of slabs sitting on shared edges",
         ),
-        _ => {
+        5 => {
             let (a, b) = star_through_vertex(4);
             (a, b, "triangles of both operands through one vertex")
         }
+        // a holed clipping polygon resting on an edge of the subject that starts further left (the clipping edge enters
+        // the status while the subject's piece below it does not exist yet), with the hole directly above the shared piece
+        6 => (
+            vec![vec![vec![(0., 0.), (20., 0.), (18., 12.), (2., 12.), (0., 0.)]]],
+            vec![holed(vec![(5., 0.), (15., 0.), (14., 8.), (6., 8.), (5., 0.)], vec![(8., 2.), (12., 3.), (9., 5.), (8., 2.)])],
+            "holed clipping polygon resting on the subject's bottom edge, which starts further left (slanted sides)",
+        ),
+        7 => (
+            vec![sq(0., 0., 20., 12.)],
+            vec![holed(rect_ring(5., 0., 15., 8.), rect_ring(8., 2., 12., 5.))],
+            "holed clipping rectangle resting on the subject's bottom edge, which starts further left",
+        ),
+        8 => (
+            vec![sq(0., 0., 20., 12.)],
+            vec![holed(rect_ring(5., 4., 15., 12.), rect_ring(8., 6., 12., 9.))],
+            "holed clipping rectangle hanging from the subject's top edge",
+        ),
+        _ => (
+            vec![holed(rect_ring(0., 3., 8., 9.), rect_ring(2., 5., 5., 7.))],
+            vec![sq(0., 0., 20., 12.)],
+            "holed subject rectangle flush with the clipping's left side",
+        ),
     };
     Case { family: "S-constructed", desc: desc.into(), a, b, exact: true, exact_f32: true, integer: true, f32_ok: true, self_crossing: false, faces: vec![] }
 }
@@ -169,7 +197,7 @@ pub fn c02_check_through(case: &Case, op: Op, f32_run: bool, w: &Witnesses, st: 
 }
 
 fn gen_c02(ctx: &mut Ctx, rng: &mut crate::util::Rng, i: u64) -> Option<Case> {
-    if i % 50 < 6 {
+    if i % 50 < 10 {
         return Some(c02_constructed(i % 50));
     }
     // shared-edge families weighted up
